@@ -1169,7 +1169,8 @@ def op_misc(P):
         if f == 'real':
             r, exp = a.arr.unary_blockwise(np.real), np.real(a.dense)
         elif f == 'imag':
-            r, exp = a.arr.unary_blockwise(np.imag), np.imag(a.dense)
+            # (numpy's imag of a real array is a read-only array of zeros: make the blocks writeable as numpy users have to)
+            r, exp = a.arr.unary_blockwise(lambda x: np.array(np.imag(x))), np.imag(a.dense)
         elif f == 'negative':
             r, exp = a.arr.unary_blockwise(np.negative), -a.dense
         else:
